@@ -401,7 +401,10 @@ def _begin(nid, kwargs, inst=None):
             inst._rv_uses = uses + 1
         except Exception:  # noqa: BLE001
             pass
-    s.ev('body_start', run, nid, attempt=attempt, kwargs=dict(kwargs), ctxrun=RUN.get(), inst_uses=uses)
+    fac = None
+    if node.get('factory'):
+        fac = bool(getattr(inst, '_rv_factory', False)) if inst is not None else None
+    s.ev('body_start', run, nid, attempt=attempt, kwargs=dict(kwargs), ctxrun=RUN.get(), inst_uses=uses, factory=fac)
     return s, node, run, attempt
 
 
